@@ -1,0 +1,29 @@
+//go:build verif
+
+// Package vhook provides named instrumentation points for external verification harnesses.
+//
+// With the "verif" build tag, At calls Hook (if set) and Poison fills released buffers with 0xDB.
+package vhook
+
+// Hook is invoked at every named point. It must be assigned before any agent goroutine is started.
+var Hook func(point string)
+
+// PoisonOn enables overwriting of released buffers
+var PoisonOn = true
+
+// At marks a named point in the code
+func At(point string) {
+	if h := Hook; h != nil {
+		h(point)
+	}
+}
+
+// Poison overwrites a buffer that is being released
+func Poison(b []byte) {
+	if !PoisonOn {
+		return
+	}
+	for i := range b {
+		b[i] = 0xDB
+	}
+}
